@@ -57,8 +57,12 @@ var (
 	opsMenu       = []ring.Operation{ring.Write, ring.WriteNoExtend, ring.Read, ring.Reporting, customOp}
 	opNames       = []string{"Write", "WriteNoExtend", "Read", "Reporting", "Custom"}
 	pstatesMenu   = []ring.PartitionState{ring.PartitionPending, ring.PartitionActive, ring.PartitionInactive}
-	updateKinds   = []string{"equal", "heartbeat", "heartbeat_all", "state", "hbstate", "token", "zone", "addr", "reg", "ro_flag", "ro_time", "ro_both", "add", "remove", "replace", "multi"}
-	pUpdateKinds  = []string{"equal", "pstate", "pstate_ts", "ptoken", "padd", "premove", "owner_add", "owner_remove", "owner_touch"}
+	updateKinds   = []string{"equal", "heartbeat", "heartbeat_all", "state", "hbstate", "token", "zone", "addr", "reg", "ro_flag", "ro_time", "ro_both", "add", "remove", "replace",
+		// changes that keep the aggregates the indexes are built from (token list, zone set, per-zone counts, read-only
+		// count, oldest registration) while the content moves between instances; time stamps going backwards / into the future
+		"tok_swap", "zone_swap", "zone_rename", "ro_swap", "reg_swap", "ts_back", "handover", "multi"} // multi stays last
+	pUpdateKinds  = []string{"equal", "pstate", "pstate_ts", "ptoken", "padd", "premove", "owner_add", "owner_remove", "owner_touch",
+		"pswap", "ptok_swap", "owner_swap", "pmulti"} // pmulti stays last
 	boundaryToken = []uint32{0, 1, 2, math.MaxUint32 - 1, math.MaxUint32}
 )
 
@@ -316,6 +320,14 @@ func (rc *recorder) summary(r ring.ReadRing, q *queryCtx, depth int) string {
 		tr, terr := r.GetTokenRangesForInstance(id)
 		fmt.Fprintf(&sb, " %s:%v/%s ranges=%v/%s", id, st, errStr(err), rankRanges(tr, q.universe), errStr(terr))
 	}
+	for n := 1; n <= maxInst+1; n++ { // the first identifier that is not in the ring
+		if id := abs.InstID(n); !r.HasInstance(id) {
+			st, err := r.GetInstanceState(id)
+			_, terr := r.GetTokenRangesForInstance(id)
+			fmt.Fprintf(&sb, " absent %s:%v/%s/%s", id, st, errStr(err), errStr(terr))
+			break
+		}
+	}
 	if depth > 0 {
 		sub := r.ShuffleShard("t-2", 1)
 		fmt.Fprintf(&sb, " nested[%v]", rc.members(sub))
@@ -358,6 +370,7 @@ type world struct {
 	pir      *ring.PartitionInstanceRing
 	latest   *ring.Desc
 	platest  *ring.PartitionRingDesc
+	deleg    *delegateRec
 	nextAddr int
 	lastKind string
 	// pointer identity of cached subrings
@@ -367,11 +380,30 @@ type world struct {
 	prevPL    map[[3]int]*ring.PartitionRing
 }
 
-func newWorld(rc *recorder, rnd *rand.Rand, za bool, rf int, lru int) *world {
+// delegateRec is the PartitionRingWatcherDelegate of the long-lived watcher: it projects the two descriptors it is handed.
+type delegateRec struct {
+	w            *world
+	calls        int
+	oldP, newP   [][4]int64
+	oldO, newO   [][4]int64
+}
+
+func (d *delegateRec) OnPartitionRingChanged(oldRing, newRing *ring.PartitionRingDesc) {
+	d.calls++
+	d.oldP, d.oldO = d.w.pdescJSON(oldRing)
+	d.newP, d.newO = d.w.pdescJSON(newRing)
+}
+
+func newWorld(rc *recorder, rnd *rand.Rand, hc histCfg) *world { return newWorldPre(rc, rnd, hc, false) }
+
+// newWorldPre: with pre, the stores are filled BEFORE the long-lived clients start (Ring.starting /
+// PartitionRingWatcher.starting read the initial content with Get instead of receiving it from the watch).
+func newWorldPre(rc *recorder, rnd *rand.Rand, hc histCfg, pre bool) *world {
+	za, rf, lru := hc.za, hc.rf, hc.lru
 	w := &world{rc: rc, rnd: rnd, nextAddr: 1,
 		prevPlain: map[[2]int]ring.ReadRing{}, prevLb: map[[3]int]ring.ReadRing{},
 		prevPP: map[[2]int]*ring.PartitionRing{}, prevPL: map[[3]int]*ring.PartitionRing{}}
-	w.cfg = ring.Config{HeartbeatTimeout: hbTimeout, ReplicationFactor: rf, ZoneAwarenessEnabled: za}
+	w.cfg = ring.Config{HeartbeatTimeout: hbTimeout, ReplicationFactor: rf, ZoneAwarenessEnabled: za, ExcludedZones: hc.excl}
 	w.popts = ring.PartitionRingOptions{ShuffleShardCacheSize: lru}
 	c1, cl1 := consul.NewInMemoryClient(ring.GetCodec(), log.NewNopLogger(), nil)
 	c2, cl2 := consul.NewInMemoryClient(ring.GetPartitionRingCodec(), log.NewNopLogger(), nil)
@@ -384,6 +416,17 @@ func newWorld(rc *recorder, rnd *rand.Rand, za bool, rf int, lru int) *world {
 		panic(err)
 	}
 	w.watcher = ring.NewPartitionRingWatcherWithOptions("long", partKey, w.pstore, w.popts, log.NewNopLogger(), nil)
+	w.deleg = &delegateRec{w: w}
+	w.watcher.WithDelegate(w.deleg)
+	w.latest = ring.NewDesc()
+	w.platest = ring.NewPartitionRingDesc()
+	var pd0 *ring.Desc
+	var ppd0 *ring.PartitionRingDesc
+	if pre {
+		pd0, ppd0 = w.bulk(2+rnd.Intn(5)), w.pbulk(1+rnd.Intn(4))
+		must(w.store.CAS(context.Background(), ringKey, func(any) (any, bool, error) { return proto.Clone(pd0), false, nil }))
+		must(w.pstore.CAS(context.Background(), partKey, func(any) (any, bool, error) { return proto.Clone(ppd0), false, nil }))
+	}
 	if err := services.StartAndAwaitRunning(context.Background(), w.long); err != nil {
 		panic(err)
 	}
@@ -391,9 +434,14 @@ func newWorld(rc *recorder, rnd *rand.Rand, za bool, rf int, lru int) *world {
 		panic(err)
 	}
 	w.pir = ring.NewPartitionInstanceRing(w.watcher, w.long, hbTimeout)
-	w.latest = ring.NewDesc()
-	w.platest = ring.NewPartitionRingDesc()
 	synctest.Wait()
+	w.deleg.calls = 0
+	if pre {
+		w.latest, w.platest = pd0, ppd0
+		w.logUpdate("bulk", pd0, "U")
+		w.deleg.calls = -1 // the initial content may be seen twice (Get in starting, then the watch): not checked
+		w.logPUpdate("bulk", ppd0)
+	}
 	return w
 }
 
@@ -706,6 +754,110 @@ func (w *world) mutateFrom(base *ring.Desc, kind string) (*ring.Desc, string) {
 		} else {
 			d.Ingesters[id] = w.newInstance(id, usedTokens(d))
 		}
+	case "tok_swap", "zone_swap", "ro_swap", "reg_swap": // two instances exchange a field: the aggregates stay
+		differ := func(a, b ring.InstanceDesc) bool {
+			switch kind {
+			case "tok_swap":
+				return fmt.Sprint(a.Tokens) != fmt.Sprint(b.Tokens)
+			case "zone_swap":
+				return a.Zone != b.Zone
+			case "ro_swap":
+				return a.ReadOnly != b.ReadOnly || a.ReadOnlyUpdatedTimestamp != b.ReadOnlyUpdatedTimestamp
+			}
+			return a.RegisteredTimestamp != b.RegisteredTimestamp
+		}
+		var pairs [][2]string
+		for i, a := range ids {
+			for _, b := range ids[i+1:] {
+				if differ(d.Ingesters[a], d.Ingesters[b]) {
+					pairs = append(pairs, [2]string{a, b})
+				}
+			}
+		}
+		if len(pairs) == 0 {
+			return w.mutateFrom(base, map[string]string{"tok_swap": "token", "zone_swap": "zone", "ro_swap": "ro_both", "reg_swap": "reg"}[kind])
+		}
+		pr := pairs[w.rnd.Intn(len(pairs))]
+		a, b := d.Ingesters[pr[0]], d.Ingesters[pr[1]]
+		switch kind {
+		case "tok_swap":
+			a.Tokens, b.Tokens = b.Tokens, a.Tokens
+		case "zone_swap":
+			a.Zone, b.Zone = b.Zone, a.Zone
+		case "ro_swap":
+			a.ReadOnly, b.ReadOnly = b.ReadOnly, a.ReadOnly
+			a.ReadOnlyUpdatedTimestamp, b.ReadOnlyUpdatedTimestamp = b.ReadOnlyUpdatedTimestamp, a.ReadOnlyUpdatedTimestamp
+		default:
+			a.RegisteredTimestamp, b.RegisteredTimestamp = b.RegisteredTimestamp, a.RegisteredTimestamp
+		}
+		d.Ingesters[pr[0]], d.Ingesters[pr[1]] = a, b
+	case "zone_rename": // every instance of one zone moves to a zone that was not in the ring
+		present := map[string]bool{}
+		for _, id := range ids {
+			present[d.Ingesters[id].Zone] = true
+		}
+		var absent []string
+		for _, z := range zonesMenu {
+			if !present[z] {
+				absent = append(absent, z)
+			}
+		}
+		if len(absent) == 0 {
+			return w.mutateFrom(base, "zone")
+		}
+		from, to := d.Ingesters[pick()].Zone, absent[w.rnd.Intn(len(absent))]
+		for _, id := range ids {
+			if ing := d.Ingesters[id]; ing.Zone == from {
+				ing.Zone = to
+				d.Ingesters[id] = ing
+			}
+		}
+	case "ts_back": // registration / read-only time stamps move backwards, to "unset" or into the future
+		id := pick()
+		ing := d.Ingesters[id]
+		move := func(cur int64) int64 {
+			return other(cur, func() int64 {
+				switch w.rnd.Intn(4) {
+				case 0:
+					return 0
+				case 1:
+					return w.now() + int64(1+w.rnd.Intn(3))
+				case 2:
+					if cur > 0 {
+						return cur - int64(1+w.rnd.Intn(4))
+					}
+				}
+				return w.now() - int64(w.rnd.Intn(40))
+			})
+		}
+		switch w.rnd.Intn(3) {
+		case 0:
+			ing.RegisteredTimestamp = move(ing.RegisteredTimestamp)
+		case 1:
+			ing.ReadOnlyUpdatedTimestamp = move(ing.ReadOnlyUpdatedTimestamp)
+		default:
+			ing.RegisteredTimestamp = move(ing.RegisteredTimestamp)
+			ing.ReadOnlyUpdatedTimestamp = move(ing.ReadOnlyUpdatedTimestamp)
+		}
+		d.Ingesters[id] = ing
+	case "handover": // an instance leaves and an existing one takes its tokens: the token list stays
+		if len(ids) < 2 {
+			return w.mutateFrom(base, "remove")
+		}
+		gone := pick()
+		heir := pick()
+		for heir == gone {
+			heir = pick()
+		}
+		h := d.Ingesters[heir]
+		toks := append(append([]uint32(nil), h.Tokens...), d.Ingesters[gone].Tokens...)
+		sort.Slice(toks, func(i, j int) bool { return toks[i] < toks[j] })
+		if len(toks) == 0 {
+			toks = nil
+		}
+		h.Tokens = toks
+		d.Ingesters[heir] = h
+		delete(d.Ingesters, gone)
 	case "multi":
 		cur := d // apply 2-3 random kinds on top of each other
 		for i, n := 0, 2+w.rnd.Intn(2); i < n; i++ {
@@ -741,7 +893,8 @@ func (w *world) logUpdate(kind string, d *ring.Desc, ev string) {
 		ing.Id = id
 		ds = append(ds, ing)
 	}
-	must(w.rc.ti.Write(map[string]any{"e": ev, "kind": kind, "d": w.rc.pairsOf(ds, false), "t": w.rc.rel(w.now())}))
+	// with excluded zones the class of an update is that of the FILTERED descriptors (derived by the specification)
+	must(w.rc.ti.Write(map[string]any{"e": ev, "kind": kind, "any": len(w.cfg.ExcludedZones) > 0, "d": w.rc.pairsOf(ds, false), "t": w.rc.rel(w.now())}))
 	w.lastKind = kind
 }
 
@@ -889,6 +1042,13 @@ func (w *world) batch(full bool) {
 		k := q.keys[0]
 		w.direct("getopts", w.cfg.ReplicationFactor+1, func(r ring.ReadRing) answer {
 			rs, err := r.GetWithOptions(k, ring.Write, ring.WithReplicationFactor(w.cfg.ReplicationFactor+1))
+			return w.rc.replicationSet(rs, err, true)
+		}, fr)
+	}
+	if sel(30) { // a per-call replication factor below the configured one falls back to it; caller-provided buffers
+		k := q.keys[len(q.keys)-1]
+		w.direct("getopts_low", 1, func(r ring.ReadRing) answer {
+			rs, err := r.GetWithOptions(k, ring.Read, ring.WithReplicationFactor(1), ring.WithBuffers(make([]ring.InstanceDesc, 0, 1), make([]string, 0, 1), nil))
 			return w.rc.replicationSet(rs, err, true)
 		}, fr)
 	}
@@ -1069,6 +1229,44 @@ func (w *world) pmutate(kind string) (*ring.PartitionRingDesc, string) {
 		}
 		od.UpdatedTimestamp++
 		d.Owners[o] = od
+	case "pswap", "ptok_swap": // two partitions exchange state + state time / tokens: the counts stay
+		var pairs [][2]int32
+		for i, a := range parts {
+			for _, b := range parts[i+1:] {
+				pa, pb := d.Partitions[a], d.Partitions[b]
+				if (kind == "pswap" && (pa.State != pb.State || pa.StateTimestamp != pb.StateTimestamp)) || kind == "ptok_swap" {
+					pairs = append(pairs, [2]int32{a, b})
+				}
+			}
+		}
+		if len(pairs) == 0 {
+			return w.pmutate("pstate")
+		}
+		pr := pairs[w.rnd.Intn(len(pairs))]
+		pa, pb := d.Partitions[pr[0]], d.Partitions[pr[1]]
+		if kind == "pswap" {
+			pa.State, pb.State = pb.State, pa.State
+			pa.StateTimestamp, pb.StateTimestamp = pb.StateTimestamp, pa.StateTimestamp
+		} else {
+			pa.Tokens, pb.Tokens = pb.Tokens, pa.Tokens
+		}
+		d.Partitions[pr[0]], d.Partitions[pr[1]] = pa, pb
+	case "owner_swap": // two owners exchange their partitions: the number of owners per state stays
+		if len(owners) < 2 {
+			return w.pmutate("owner_add")
+		}
+		i := w.rnd.Intn(len(owners))
+		j := (i + 1 + w.rnd.Intn(len(owners)-1)) % len(owners)
+		oa, ob := d.Owners[owners[i]], d.Owners[owners[j]]
+		oa.OwnedPartition, ob.OwnedPartition = ob.OwnedPartition, oa.OwnedPartition
+		d.Owners[owners[i]], d.Owners[owners[j]] = oa, ob
+	case "pmulti":
+		save := w.platest
+		for i, n := 0, 2+w.rnd.Intn(2); i < n; i++ {
+			w.platest, _ = w.pmutate(pUpdateKinds[w.rnd.Intn(len(pUpdateKinds)-1)]) // not pmulti
+		}
+		d, w.platest = w.platest, save
+		return d, "pmulti"
 	default:
 		panic("unknown partition kind " + kind)
 	}
@@ -1172,7 +1370,15 @@ func (w *world) psummary(pr *ring.PartitionRing, pir *ring.PartitionInstanceRing
 
 func (w *world) logPUpdate(kind string, d *ring.PartitionRingDesc) {
 	parts, owners := w.pdescJSON(d)
-	must(w.rc.tp.Write(map[string]any{"e": "PU", "kind": kind, "parts": parts, "owners": owners}))
+	ev := map[string]any{"e": "PU", "kind": kind, "parts": parts, "owners": owners, "dn": -1,
+		"dop": [][4]int64{}, "doo": [][4]int64{}, "dnp": [][4]int64{}, "dno": [][4]int64{}}
+	if dg := w.deleg; dg != nil && dg.calls >= 0 { // what the watcher told its delegate since the previous update
+		ev["dn"], ev["dop"], ev["doo"], ev["dnp"], ev["dno"] = dg.calls, dg.oldP, dg.oldO, dg.newP, dg.newO
+	}
+	if w.deleg != nil {
+		w.deleg.calls = 0
+	}
+	must(w.rc.tp.Write(ev))
 }
 
 func (w *world) pkeys() []uint32 {
@@ -1320,15 +1526,20 @@ func runBubble(t *testing.T, rc *recorder, f func(t *testing.T)) {
 	})
 }
 
-func (rc *recorder) reset(h int, za bool, rf, lru int, conc bool) {
-	must(rc.ti.Write(map[string]any{"e": "R", "h": h, "za": za, "rf": rf, "conc": conc}))
-	must(rc.tp.Write(map[string]any{"e": "R", "h": h, "lru": lru}))
+func (rc *recorder) reset(h int, hc histCfg, conc bool) {
+	excl := []int{}
+	for _, z := range hc.excl {
+		excl = append(excl, zoneNo(z))
+	}
+	must(rc.ti.Write(map[string]any{"e": "R", "h": h, "za": hc.za, "rf": hc.rf, "conc": conc, "excl": excl}))
+	must(rc.tp.Write(map[string]any{"e": "R", "h": h, "lru": hc.lru}))
 }
 
 type histCfg struct {
-	za  bool
-	rf  int
-	lru int
+	za   bool
+	rf   int
+	lru  int
+	excl []string // ring.Config.ExcludedZones of the long-lived and of the fresh client
 }
 
 // systematic: prime the caches, apply one update of the given kind, ask everything; then a
@@ -1339,8 +1550,8 @@ func systematic(t *testing.T, rc *recorder, h int, seed int64, hc histCfg, kind,
 		if rc.epoch == 0 {
 			rc.epoch = time.Now().Unix()
 		}
-		rc.reset(h, hc.za, hc.rf, hc.lru, false)
-		w := newWorld(rc, rnd, hc.za, hc.rf, hc.lru)
+		rc.reset(h, hc, false)
+		w := newWorld(rc, rnd, hc)
 		defer w.close()
 		d := w.bulk(4 + rnd.Intn(3))
 		w.push(d)
@@ -1369,21 +1580,27 @@ func random(t *testing.T, rc *recorder, h int, seed int64, hc histCfg, steps int
 		if rc.epoch == 0 {
 			rc.epoch = time.Now().Unix()
 		}
-		rc.reset(h, hc.za, hc.rf, hc.lru, false)
-		w := newWorld(rc, rnd, hc.za, hc.rf, hc.lru)
+		rc.reset(h, hc, false)
+		pre := rnd.Intn(3) == 0 // the clients start on a store that already has content
+		w := newWorldPre(rc, rnd, hc, pre)
 		defer w.close()
-		if rnd.Intn(3) > 0 {
-			d := w.bulk(2 + rnd.Intn(5))
-			w.push(d)
-			w.logUpdate("bulk", d, "U")
-		} else { // start with an empty descriptor in the store
-			w.push(ring.NewDesc())
-			w.logUpdate("equal", w.latest, "U")
+		if pre {
+			w.batch(false)
+			w.pbatch(false)
+		} else {
+			if rnd.Intn(3) > 0 {
+				d := w.bulk(2 + rnd.Intn(5))
+				w.push(d)
+				w.logUpdate("bulk", d, "U")
+			} else { // start with an empty descriptor in the store
+				w.push(ring.NewDesc())
+				w.logUpdate("equal", w.latest, "U")
+			}
+			w.batch(false)
+			pd := w.pbulk(rnd.Intn(5))
+			w.ppush(pd)
+			w.logPUpdate("bulk", pd)
 		}
-		w.batch(false)
-		pd := w.pbulk(rnd.Intn(5))
-		w.ppush(pd)
-		w.logPUpdate("bulk", pd)
 		for s := 0; s < steps; s++ {
 			if rnd.Intn(4) == 0 {
 				w.pstep(pUpdateKinds[rnd.Intn(len(pUpdateKinds))], false)
@@ -1437,6 +1654,37 @@ func (w *world) concurrentQueries(q *queryCtx) []cquery {
 	qs = append(qs, cquery{"zones", func(r *ring.Ring) string { return fmt.Sprint(r.Zones()) }})
 	qs = append(qs, cquery{"inzone", func(r *ring.Ring) string { return fmt.Sprint(r.InstancesInZoneCount("z1")) }})
 	qs = append(qs, cquery{"withtokens", func(r *ring.Ring) string { return fmt.Sprint(r.InstancesWithTokensCount()) }})
+	qs = append(qs, cquery{"writable", func(r *ring.Ring) string {
+		return fmt.Sprint(r.WritableInstancesWithTokensCount(), r.WritableInstancesWithTokensInZoneCount("z2"))
+	}})
+	qs = append(qs, cquery{"zonescount", func(r *ring.Ring) string { return fmt.Sprint(r.ZonesCount()) }})
+	for n := 1; n <= 3; n++ {
+		id := abs.InstID(n)
+		qs = append(qs, cquery{"instance[" + id + "]", func(r *ring.Ring) string {
+			d, err := r.GetInstance(id)
+			if err != nil {
+				return "err:" + errStr(err)
+			}
+			return fmt.Sprint(rc.rec(d))
+		}})
+		qs = append(qs, cquery{"ranges[" + id + "]", func(r *ring.Ring) string {
+			tr, err := r.GetTokenRangesForInstance(id)
+			return fmt.Sprintf("%v/%s", rankRanges(tr, q.universe), errStr(err))
+		}})
+	}
+	qs = append(qs, cquery{"state[i-1]", func(r *ring.Ring) string {
+		st, err := r.GetInstanceState("i-1")
+		return fmt.Sprintf("%v/%s", st, errStr(err))
+	}})
+	qs = append(qs, cquery{"substates", func(r *ring.Ring) string { // the subring is immutable: one atomic read of the ring
+		sub := r.GetSubringForOperationStates(ring.Read)
+		rs, err := sub.GetAllHealthy(ring.Reporting)
+		return ans(rc.replicationSet(rs, err, false)) + fmt.Sprint(sub.InstancesCount(), sub.Zones())
+	}})
+	qs = append(qs, cquery{"getopts", func(r *ring.Ring) string {
+		rs, err := r.GetWithOptions(q.keys[0], ring.Write, ring.WithReplicationFactor(w.cfg.ReplicationFactor+1))
+		return ans(rc.replicationSet(rs, err, true))
+	}})
 	bnow := w.now()
 	for id := 1; id <= 2; id++ {
 		for _, size := range []int{1, 2, 0} {
@@ -1479,8 +1727,8 @@ func concurrent(t *testing.T, rc *recorder, h int, seed int64, hc histCfg, round
 		if rc.epoch == 0 {
 			rc.epoch = time.Now().Unix()
 		}
-		rc.reset(h, hc.za, hc.rf, hc.lru, true)
-		w := newWorld(rc, rnd, hc.za, hc.rf, hc.lru)
+		rc.reset(h, hc, true)
+		w := newWorld(rc, rnd, hc)
 		defer w.close()
 		d := w.bulk(4 + rnd.Intn(3))
 		w.push(d)
@@ -1565,7 +1813,125 @@ func concurrent(t *testing.T, rc *recorder, h int, seed int64, hc histCfg, round
 				}
 			}
 		}
+		w.pconcurrent(rounds, readers)
 	})
+}
+
+// pconcurrent: readers take the watcher's PartitionRing (and shards of it through the PartitionInstanceRing) while one
+// partition-ring update is delivered; every answer must be the one of the descriptor before or after that update.
+func (w *world) pconcurrent(rounds, readers int) {
+	rc, rnd := w.rc, w.rnd
+	pd := w.pbulk(3 + rnd.Intn(3))
+	w.ppush(pd)
+	w.logPUpdate("bulk", pd)
+	type pquery struct {
+		name string
+		f    func(pr *ring.PartitionRing) string
+	}
+	for round := 0; round < rounds; round++ {
+		w.tick()
+		keys := w.pkeys()
+		bnow := w.now()
+		proj := func(pr *ring.PartitionRing) string {
+			p, o := w.pringParts(pr)
+			return fmt.Sprint(p, o, w.psummary(pr, nil, keys))
+		}
+		qs := []pquery{{"pring", proj}}
+		for id := 1; id <= 2; id++ {
+			for _, size := range []int{1, 2, 0} {
+				ident, size := fmt.Sprintf("t-%d", id), size
+				qs = append(qs, pquery{fmt.Sprintf("pshard[%s,%d]", ident, size), func(pr *ring.PartitionRing) string {
+					sub, err := pr.ShuffleShard(ident, size)
+					if err != nil {
+						return "err:" + errStr(err)
+					}
+					return proj(sub)
+				}})
+				qs = append(qs, pquery{fmt.Sprintf("plbshard[%s,%d]", ident, size), func(pr *ring.PartitionRing) string {
+					sub, err := pr.ShuffleShardWithLookback(ident, size, 3*time.Second, time.Unix(bnow, 0))
+					if err != nil {
+						return "err:" + errStr(err)
+					}
+					return proj(sub)
+				}})
+			}
+		}
+		psafe := func(f func(pr *ring.PartitionRing) string, pr *ring.PartitionRing) (s string) {
+			defer func() {
+				if p := recover(); p != nil {
+					s = fmt.Sprintf("PANIC: %v", p)
+				}
+			}()
+			return f(pr)
+		}
+		before := make([]string, len(qs))
+		fpr := w.freshPartitionRing()
+		for i, q := range qs {
+			before[i] = psafe(q.f, fpr)
+		}
+		nd, k := w.pmutate(pUpdateKinds[rnd.Intn(len(pUpdateKinds))])
+		var stopFlag atomic.Bool
+		var wg sync.WaitGroup
+		seen := make([]map[string]bool, readers)
+		for g := 0; g < readers; g++ {
+			g := g
+			seen[g] = map[string]bool{}
+			order := rnd.Perm(len(qs))
+			wg.Add(1)
+			go func() {
+				defer wg.Done()
+				for it := 0; it < 2000; it++ {
+					for _, i := range order {
+						// the linearization point of a read is the moment the watcher hands out its ring
+						seen[g][fmt.Sprintf("%d\x00%s", i, psafe(qs[i].f, w.watcher.PartitionRing()))] = true
+					}
+					if stopFlag.Load() && it >= 1 {
+						return
+					}
+				}
+			}()
+		}
+		base := w.pstore.delivered.Load()
+		must(w.pstore.CAS(context.Background(), partKey, func(any) (any, bool, error) { return proto.Clone(nd), false, nil }))
+		for w.pstore.delivered.Load() == base {
+			runtime.Gosched()
+		}
+		stopFlag.Store(true)
+		wg.Wait()
+		synctest.Wait()
+		w.platest = nd
+		w.logPUpdate(k, nd)
+		fpr = w.freshPartitionRing()
+		after := make([]string, len(qs))
+		for i, q := range qs {
+			after[i] = psafe(q.f, fpr)
+		}
+		all := map[string]bool{}
+		for g := range seen {
+			for s := range seen[g] {
+				all[s] = true
+			}
+		}
+		keysS := make([]string, 0, len(all))
+		for s := range all {
+			keysS = append(keysS, s)
+		}
+		sort.Strings(keysS)
+		for _, s := range keysS {
+			var i int
+			parts := strings.SplitN(s, "\x00", 2)
+			fmt.Sscanf(parts[0], "%d", &i)
+			ev := map[string]any{"e": "PCQ", "q": qs[i].name, "ans": digest(parts[1]), "before": digest(before[i]), "after": digest(after[i])}
+			if parts[1] != before[i] && parts[1] != after[i] {
+				ev["ansfull"], ev["beforefull"], ev["afterfull"] = parts[1], before[i], after[i]
+			}
+			must(rc.tp.Write(ev))
+			rc.res.Cases++
+			if before[i] != after[i] {
+				rc.short++
+			}
+		}
+	}
 }
 
 // ---------------------------------------------------------------------------------------------
@@ -1583,8 +1949,8 @@ func gated(t *testing.T, rc *recorder, h int, seed int64, hc histCfg, kinds []st
 		if rc.epoch == 0 {
 			rc.epoch = time.Now().Unix()
 		}
-		rc.reset(h, hc.za, hc.rf, hc.lru, false)
-		w := newWorld(rc, rnd, hc.za, hc.rf, hc.lru)
+		rc.reset(h, hc, false)
+		w := newWorld(rc, rnd, hc)
 		defer w.close()
 		var armed atomic.Bool
 		var parked atomic.Bool
@@ -1719,7 +2085,7 @@ func gossip(t *testing.T, rc *recorder, h int, seed int64, hc histCfg, steps int
 		if rc.epoch == 0 {
 			rc.epoch = time.Now().Unix()
 		}
-		rc.reset(h, hc.za, hc.rf, hc.lru, false)
+		rc.reset(h, hc, false)
 		w := &world{rc: rc, rnd: rnd, nextAddr: 1,
 			prevPlain: map[[2]int]ring.ReadRing{}, prevLb: map[[3]int]ring.ReadRing{},
 			prevPP: map[[2]int]*ring.PartitionRing{}, prevPL: map[[3]int]*ring.PartitionRing{}}
@@ -1817,6 +2183,18 @@ func gossip(t *testing.T, rc *recorder, h int, seed int64, hc histCfg, steps int
 
 // ---------------------------------------------------------------------------------------------
 
+// exclOf: one history in three runs with one or two excluded zones
+func exclOf(rnd *rand.Rand) []string {
+	switch rnd.Intn(6) {
+	case 0:
+		return []string{zonesMenu[rnd.Intn(len(zonesMenu))]}
+	case 1:
+		z := rnd.Intn(len(zonesMenu))
+		return []string{zonesMenu[z], zonesMenu[(z+1)%len(zonesMenu)]}
+	}
+	return nil
+}
+
 func TestRecord(t *testing.T) {
 	ti, tp, recs := os.Getenv("VERIF_TRACE_I"), os.Getenv("VERIF_TRACE_P"), os.Getenv("VERIF_RECS")
 	if ti == "" || tp == "" || recs == "" {
@@ -1853,25 +2231,30 @@ func TestRecord(t *testing.T) {
 				if ki < len(pUpdateKinds) {
 					pkind = pUpdateKinds[ki]
 				}
-				systematic(t, rc, h, seed*1000003+int64(h), cfgs[(ci+int(seed))%len(cfgs)], kind, pkind)
+				hc := cfgs[(ci+int(seed))%len(cfgs)]
+				if h%3 == 0 { // every third history: ring.Config.ExcludedZones on the long-lived and the fresh client
+					hc.excl = []string{zonesMenu[(h/3)%len(zonesMenu)]}
+				}
+				systematic(t, rc, h, seed*1000003+int64(h), hc, kind, pkind)
 			}
 		}
 		rnd := rand.New(rand.NewSource(seed*7919 + 13))
 		for i := 0; i < nRandom; i++ {
 			h++
-			hc := histCfg{za: rnd.Intn(2) == 0, rf: 1 + rnd.Intn(3), lru: rnd.Intn(4)}
+			hc := histCfg{za: rnd.Intn(2) == 0, rf: 1 + rnd.Intn(3), lru: rnd.Intn(4), excl: exclOf(rnd)}
 			random(t, rc, h, seed*1000003+int64(h), hc, 20+rnd.Intn(41))
 		}
 		for i := 0; i < nConc; i++ {
 			h++
-			hc := histCfg{za: rnd.Intn(2) == 0, rf: 1 + rnd.Intn(3), lru: 0}
+			hc := histCfg{za: rnd.Intn(2) == 0, rf: 1 + rnd.Intn(3), lru: rnd.Intn(3), excl: exclOf(rnd)}
 			concurrent(t, rc, h, seed*1000003+int64(h), hc, abs.EnvInt("VERIF_ROUNDS", 12), 4)
 		}
 		for i := 0; i < abs.EnvInt("VERIF_GATED", 2); i++ {
 			h++
-			hc := histCfg{za: rnd.Intn(2) == 0, rf: 1 + rnd.Intn(3), lru: 0}
+			hc := histCfg{za: rnd.Intn(2) == 0, rf: 1 + rnd.Intn(3), lru: 0, excl: exclOf(rnd)}
 			// every topology-changing kind, with heartbeat / state / equal controls in between
-			kinds := []string{"token", "heartbeat_all", "remove", "equal", "add", "state", "addr", "zone", "hbstate", "reg", "ro_both", "heartbeat", "replace", "ro_time", "ro_flag", "multi"}
+			kinds := []string{"token", "heartbeat_all", "remove", "equal", "add", "state", "addr", "zone", "hbstate", "reg", "ro_both", "heartbeat", "replace", "ro_time", "ro_flag", "multi",
+				"tok_swap", "zone_swap", "zone_rename", "ro_swap", "reg_swap", "ts_back", "handover"}
 			rnd.Shuffle(len(kinds), func(a, b int) { kinds[a], kinds[b] = kinds[b], kinds[a] })
 			gated(t, rc, h, seed*1000003+int64(h), hc, kinds)
 		}
